@@ -65,6 +65,11 @@ func (c Control) SourceName() string {
 	if c.Source == "" {
 		return c.Package
 	}
+	/* "Source: name (version)" when the versions of the source and the
+	 * binary package differ (every binNMU): the name is the first word. */
+	if fields := strings.Fields(c.Source); len(fields) > 0 {
+		return fields[0]
+	}
 	return c.Source
 }
 
